@@ -17,6 +17,7 @@ import (
 	"math/rand/v2"
 	"os"
 	"sort"
+	"runtime"
 	"strings"
 	"sync"
 	"syscall"
@@ -38,6 +39,7 @@ type c20Plan struct {
 	Abort         bool
 	Overlap       bool
 	NoOld         bool // non-staged only: there is no previous generation to retire (oldC == nil)
+	OldCloseErr   bool // the old generation's Close() reports an error (failed deferred clean-up / close-tail timeout)
 	Probe         map[string]int // stage -> number of concurrent refused requests fired while the worker is parked
 }
 
@@ -52,6 +54,9 @@ func (p *c20Plan) String() string {
 	}
 	if p.NoOld {
 		s += "/no-old-generation"
+	}
+	if p.OldCloseErr {
+		s += "/old-close-error"
 	}
 	return s
 }
@@ -73,6 +78,7 @@ func c20GenPlan(r *rand.Rand) *c20Plan {
 	}
 	p.Retire = []string{"fast", "fast", "slow", "slow", "late"}[r.IntN(5)]
 	p.Abort, p.Overlap = r.IntN(3) == 0, r.IntN(2) == 0
+	p.OldCloseErr = r.IntN(4) == 0
 	for _, st := range []string{"queued", "active", "handoff", "serving", "retiring"} {
 		if r.IntN(4) == 0 {
 			p.Probe[st] = 1 + r.IntN(4)
@@ -291,6 +297,10 @@ func (h *c20Round) runCycle(p *c20Plan) *c20Receipt {
 	}
 
 	oldC, newC := &control.ControlPlane{}, &control.ControlPlane{}
+	if p.OldCloseErr {
+		oldC = control.VerifC20ControlPlaneWithCloseError(fmt.Errorf("injected: old generation close did not finish cleanly"))
+		h.mon.Count("old_generation_close_error_planned", 1)
+	}
 	var gate chan struct{}
 	if p.Retire != "fast" {
 		gate = make(chan struct{})
@@ -439,6 +449,21 @@ func (h *c20Round) runCycle(p *c20Plan) *c20Receipt {
 	return finishSuccess(out)
 }
 
+// retirementAbandoned: a retirement-done channel is still open although no goroutine of
+// startControlPlaneRetirement exists any more (decided on the goroutine dump, not on time): nobody
+// is left who could ever signal it, so reloadPending, the failure muting and the busy report that
+// wait for it are never released.
+func (h *c20Round) retirementAbandoned(plan string) bool {
+	buf := make([]byte, 8<<20)
+	buf = buf[:runtime.Stack(buf, true)]
+	if strings.Contains(string(buf), "startControlPlaneRetirement") {
+		return false
+	}
+	h.violation("retirement-done-never-signalled", "the old generation's retirement goroutine has exited without signalling retirement completion: everything waiting for it (reloadPending, failure muting, busy report) stays held for ever",
+		map[string]any{"plan": plan})
+	return true
+}
+
 // waitAdmission is the never-wedged oracle: after the previous outcome (and
 // once its retirement completed) some request must be admitted again.
 func (h *c20Round) waitAdmission(prev *c20Receipt) bool {
@@ -447,6 +472,9 @@ func (h *c20Round) waitAdmission(prev *c20Receipt) bool {
 		select {
 		case <-prev.done:
 		case <-time.After(c20Bound):
+			if h.retirementAbandoned(prev.Plan) {
+				return false
+			}
 			h.mon.Inconclusive("retirement goroutine of an empty ControlPlane did not finish within %v", c20Bound)
 			return false
 		}
@@ -506,8 +534,26 @@ func (h *c20Round) qfullProbe() {
 		h.violation("queue-full-refusal-changed-state", fmt.Sprintf("queue-full refusal left state changed: before=%+v after=%+v", s1, s2),
 			map[string]any{"before": s1, "after": s2})
 	}
-	if c, _ := e.progress(); c != consts.ReloadBusy {
+	// Every refused attempt must have written a busy report during its call. With ONE attempt that
+	// report is also what the progress file must still say. With several concurrent attempts in this
+	// injected state (reloadPending free, queue occupied: no real producer can create it) an attempt
+	// that lost the reloadPending CAS to a sibling which then backed out at the full queue sees
+	// reloadPending free again and, as after any refusal that raced with a release, removes the
+	// stale busy report: the final code may then be done.
+	e.mu.Lock()
+	for _, a := range e.attempts {
+		if a.Phase == "qfull" && !a.OK && a.Busy1 <= a.Busy0 {
+			e.mu.Unlock()
+			h.violation("refusal-not-reported-busy/queue-full", "a queue-full refusal returned without having written a busy report", map[string]any{"attempt": a})
+			e.mu.Lock()
+			break
+		}
+	}
+	e.mu.Unlock()
+	if c, _ := e.progress(); c != consts.ReloadBusy && (k == 1 || c != consts.ReloadDone) {
 		h.violation("refusal-not-reported-busy/queue-full", "queue-full refusal did not report ReloadBusy: progress="+c20CodeName(c), nil)
+	} else if c != consts.ReloadBusy {
+		h.mon.Count("queue_full_probe_busy_report_cleared_by_racing_sibling", 1)
 	}
 	select {
 	case got := <-m.reloadReqs:
@@ -579,6 +625,9 @@ func (h *c20Round) run() {
 		select {
 		case <-d:
 		case <-time.After(c20Bound):
+			if h.retirementAbandoned("(end of round)") {
+				return
+			}
 			mon.Inconclusive("retirement goroutine did not finish within %v", c20Bound)
 			return
 		}
